@@ -189,6 +189,17 @@ func c17r1(c *core.Ctx) {
 		c.Undecide("C17/R1", "codec methods", "binary/JSON marshalling methods of Entity not found (interface method names are fixed by encoding)")
 		return
 	}
+	// encoding/json looks the encoder up on the value it is given: an Entity passed by value, held in a by-value struct
+	// field or as a map value is encoded through MarshalJSON only if the method is in the value method set. With a
+	// pointer receiver those uses silently fall back to the default struct encoding (`{}` for unexported fields), and
+	// the handle is lost.
+	if jsonW.Sig != nil && jsonW.Sig.Recv() != nil {
+		if _, ptr := jsonW.Sig.Recv().Type().(*types.Pointer); ptr {
+			c.Violation("C17/R1", "Entity.MarshalJSON receiver", c.At(jsonW.Pos()), "Entity.MarshalJSON has a pointer receiver: entities marshalled by value (plain values, by-value struct fields, map values) are encoded by the default struct encoding as `{}` and cannot be decoded")
+		} else {
+			c.OK("C17/R1", "Entity.MarshalJSON receiver", c.At(jsonW.Pos()), "value receiver: by-value and by-pointer uses are both encoded through the method")
+		}
+	}
 	norm := func(ts []codecTuple) string {
 		var s []string
 		for _, t := range ts {
@@ -491,6 +502,50 @@ func c17r3(c *core.Ctx) {
 			}
 		}
 		c.OK("C17/R3", subject, c.At(load.Pos()), "restored from the dump")
+	}
+	// every restoring store happens on every normal path: a path that returns early (say, for a dump without alive
+	// entities) would leave the free list and the generations of the dump unrestored
+	{
+		nodes := map[string][]ast.Node{}
+		core.InspectNoLits(load.Body, func(n ast.Node) bool {
+			switch x := n.(type) {
+			case *ast.AssignStmt:
+				for _, l := range x.Lhs {
+					if k := fieldKeyOf(m, l); strings.HasPrefix(k, "entityPool.") || k == "storage.entityPool" || k == "storage.entities" || k == "storage.isTarget" {
+						nodes[k] = append(nodes[k], x)
+					}
+				}
+			}
+			return true
+		})
+		// a whole-pool assignment restores every pool field at once
+		if whole := nodes["storage.entityPool"]; len(whole) > 0 {
+			for i := 0; i < pst.NumFields(); i++ {
+				k := m.FieldKey(pst.Field(i).Origin())
+				nodes[k] = append(nodes[k], whole...)
+			}
+			delete(nodes, "storage.entityPool")
+		}
+		// only fields that some statement restores unconditionally (a top-level statement of the function) carry the
+		// obligation; a store that is itself under a "the dump has no entities" test is conditional by design
+		top := map[ast.Node]bool{}
+		for _, st := range load.Body.List {
+			top[st] = true
+		}
+		for k, ns := range nodes {
+			uncond := false
+			for _, n := range ns {
+				if top[n] {
+					uncond = true
+				}
+			}
+			if !uncond {
+				delete(nodes, k)
+			}
+		}
+		for _, miss := range keysNotOnAllPaths(c, load, nodes, nil, nil) {
+			c.Violation("C17/R3", load.Name+": "+miss+" on all paths", c.At(load.Pos()), fmt.Sprintf("%s restores %s only on some paths: a normal path returns before it; the loaded world would keep part of its previous entity state", load.Name, miss))
+		}
 	}
 	// index and flag slices re-created with the dumped length
 	for _, key := range []string{"storage.entities", "storage.isTarget"} {
